@@ -162,8 +162,8 @@ def main():
                 tk = str(rng.choice(trial_kinds))
                 sk = str(rng.choice(test_kinds))
                 sw = [int(x) for x in rng.choice(sorted(set(mesh.D.tolist())), size=1)] if ci % 4 == 3 else None
-                optsT = S.random_opts(rng, mesh, *KIND_ARGS[tk], variant=1 + ci)
-                optsS = S.random_opts(rng, mesh, *KIND_ARGS[sk], variant=2 + 3 * ci)
+                optsT = S.draw_opts(rng, mesh, topo, *KIND_ARGS[tk], variant=1 + ci)[0] or {}
+                optsS = S.draw_opts(rng, mesh, topo, *KIND_ARGS[sk], variant=2 + 3 * ci)[0] or {}
                 # test and trial may carry different swapped-normal flags
                 sw_test = sw if ci % 8 != 7 else None
                 for o, s_ in ((optsT, sw), (optsS, sw_test)):
